@@ -67,12 +67,91 @@ theorem rebuild (y1 m1 d1 y2 m2 d2 : Int)
   simp only [pdDate, addYM]
   by_cases hdd : d2 - d1 < 0
   · by_cases hfull : d2 = dim (isLeap y2) m2
-    · by_cases hmd : m2 - m1 < 0
-      · rw [if_pos hdd, if_pos hdd, if_pos hfull, if_pos hfull, if_pos hmd, if_pos hmd]
-        trace_state
-        sorry
-      · sorry
-    · sorry
-  · sorry
+    · -- clamped full month: anchor is (y2, m2, d2)
+      by_cases hmd : m2 - m1 < 0
+      · simp only [if_pos hdd, if_pos hfull, if_pos hmd]
+        have e1 : m1 + (m2 - m1 + 12) > 12 := by omega
+        have e2 : y1 + (y2 - y1 - 1) + 1 = y2 := by omega
+        have e3 : m1 + (m2 - m1 + 12) - 12 = m2 := by omega
+        simp only [if_pos e1, e2, e3]
+        have e4 : min (dim (isLeap y2) m2) d1 = d2 := by omega
+        rw [e4]
+        refine ⟨by omega, by omega, by omega, by omega, by omega, by omega⟩
+      · simp only [if_pos hdd, if_pos hfull, if_neg hmd]
+        have e1 : ¬ (m2 > 12) := by omega
+        have e2 : y1 + (y2 - y1) = y2 := by omega
+        have e3 : m1 + (m2 - m1) = m2 := by omega
+        simp only [e2, e3, if_neg e1]
+        have e4 : min (dim (isLeap y2) m2) d1 = d2 := by omega
+        rw [e4]
+        refine ⟨by omega, by omega, by omega, by omega, by omega, by omega⟩
+    · -- borrow from the month before (y2, m2)
+      simp only [if_pos hdd, if_neg hfull]
+      by_cases hm1 : m2 = 1
+      · -- previous month is December of y2 - 1
+        subst hm1
+        have hmd : (1:Int) - m1 - 1 < 0 := by omega
+        simp only [if_pos hmd, if_true]
+        have e1 : ¬ (m1 + (1 - m1 - 1 + 12) > 12) := by omega
+        have e2 : y1 + (y2 - y1 - 1) = y2 - 1 := by omega
+        have e3 : m1 + (1 - m1 - 1 + 12) = 12 := by omega
+        simp only [e2, e3]
+        have h12 : ¬ ((12:Int) > 12) := by omega
+        simp only [if_neg h12]
+        have hd12 : dim (isLeap (y2 - 1)) 12 = 31 := by simp [dim]
+        have hd1 : dim (isLeap y2) 1 = 31 := by simp [dim]
+        rw [hd12]
+        have hs := dby_succ (y2 - 1)
+        simp only [Int.sub_add_cancel] at hs
+        unfold ymd2ord
+        have hb12 : daysBeforeMonth (isLeap (y2 - 1)) 12 = 334 + (if isLeap (y2 - 1) then 1 else 0) := by
+          simp [daysBeforeMonth]
+        have hb1 : daysBeforeMonth (isLeap y2) 1 = 0 := by simp [daysBeforeMonth]
+        rw [hb12, hb1, hs]
+        rw [hd1] at hfull hb4
+        refine ⟨by omega, by omega, by omega, by omega, by omega, by omega⟩
+      · -- previous month is m2 - 1 of the same year
+        have hm2 : 2 ≤ m2 := by omega
+        simp only [if_neg hm1]
+        have hsucc := dbm_succ (isLeap y2) (m2 - 1) (by omega) (by omega)
+        simp only [Int.sub_add_cancel] at hsucc
+        have hdimp := dim_bounds (isLeap y2) (m2 - 1)
+        by_cases hmd : m2 - m1 - 1 < 0
+        · simp only [if_pos hmd]
+          have e1 : m1 + (m2 - m1 - 1 + 12) > 12 := by omega
+          have e2 : y1 + (y2 - y1 - 1) + 1 = y2 := by omega
+          have e3 : m1 + (m2 - m1 - 1 + 12) - 12 = m2 - 1 := by omega
+          simp only [if_pos e1, e2, e3]
+          unfold ymd2ord
+          rw [hsucc]
+          refine ⟨by omega, by omega, by omega, by omega, by omega, by omega⟩
+        · simp only [if_neg hmd]
+          have e1 : ¬ (m2 - 1 > 12) := by omega
+          have e2 : y1 + (y2 - y1) = y2 := by omega
+          have e3 : m1 + (m2 - m1 - 1) = m2 - 1 := by omega
+          simp only [e2, e3, if_neg e1]
+          unfold ymd2ord
+          rw [hsucc]
+          refine ⟨by omega, by omega, by omega, by omega, by omega, by omega⟩
+  · -- no borrow: anchor is (y2, m2, d1)
+    simp only [if_neg hdd]
+    by_cases hmd : m2 - m1 < 0
+    · simp only [if_pos hmd]
+      have e1 : m1 + (m2 - m1 + 12) > 12 := by omega
+      have e2 : y1 + (y2 - y1 - 1) + 1 = y2 := by omega
+      have e3 : m1 + (m2 - m1 + 12) - 12 = m2 := by omega
+      simp only [if_pos e1, e2, e3]
+      have e4 : min (dim (isLeap y2) m2) d1 = d1 := by omega
+      rw [e4]; unfold ymd2ord
+      refine ⟨by omega, by omega, by omega, by omega, by omega, by omega⟩
+    · simp only [if_neg hmd]
+      have e1 : ¬ (m2 > 12) := by omega
+      have e2 : y1 + (y2 - y1) = y2 := by omega
+      have e3 : m1 + (m2 - m1) = m2 := by omega
+      simp only [e2, e3, if_neg e1]
+      have e4 : min (dim (isLeap y2) m2) d1 = d1 := by omega
+      rw [e4]; unfold ymd2ord
+      refine ⟨by omega, by omega, by omega, by omega, by omega, by omega⟩
 
+#print axioms rebuild
 end PD
